@@ -621,7 +621,20 @@ pub fn gen_filter(rng: &mut Rng, fe: &str, nchars: u64) -> AFilter {
     }
     if !dlf && rng.chance(1, 4) {
         let n = rng.below(4);
-        f.lcs = LcsCrit { k: "list".into(), ids: (0..n).map(|_| rng.range(1, 4) as u32).collect() };
+        let _ = n;
+        // list sizes around the thresholds of a membership test, any order, with repeated ids
+        let size = *rng.pick(&[0u64, 1, 2, 3, 4, 5, 8, 17]);
+        let span = if rng.chance(1, 2) { 4 } else { 2 * size.max(1) + 2 };
+        let mut ids: Vec<u32> = (0..size).map(|_| rng.range(1, span) as u32).collect();
+        match rng.below(3) {
+            0 => ids.sort(),
+            1 => {
+                ids.sort();
+                ids.reverse();
+            }
+            _ => {}
+        }
+        f.lcs = LcsCrit { k: "list".into(), ids };
     }
     f
 }
@@ -642,7 +655,13 @@ pub fn gen_msg(rng: &mut Rng, f: &AFilter, nchars: u64) -> AMsg {
     };
     let base: &str = *rng.pick(&BASE_TEXTS[..]);
     let text = to_codes(base, rng, 2);
-    let lc = if f.lcs.k == "list" && !f.lcs.ids.is_empty() { rng.range(1, 4) as u32 } else { rng.range(0, 4) as u32 };
+    let lc = if f.lcs.k == "list" && !f.lcs.ids.is_empty() {
+        // a listed id (any position) or an id around the listed ones
+        let mx = *f.lcs.ids.iter().max().unwrap();
+        if rng.chance(1, 2) { *rng.pick(&f.lcs.ids) } else { rng.range(1, mx as u64 + 2) as u32 }
+    } else {
+        rng.range(0, 4) as u32
+    };
     AMsg {
         ecu: gen_msg_id(rng, nchars, &f.ecu),
         ext,
